@@ -7,7 +7,7 @@ LEVEL = 'model_checking'
 def run(ctx):
     T = ctx.thorough
     tmo = 900 if T else 100
-    NOPS2 = 18
+    NOPS2 = 20
     L = 4 if T else 3
     hcells = [('len0', ['len(ops) == 0'])] + [('len1', ['len(ops) == 1'])]
     for n in range(2, L + 1):
@@ -30,6 +30,6 @@ def run(ctx):
     res.functions_encoded += ['Application.add', 'cast_to_route_factory', 'SubApplication.bind_all', 'Route.bind/BoundRoute.bind', 'BoundRoute.__init__',
                               'Application.__init__', 'Application.dispatch (probe requests)']
     res.bounds.update(dict(insert='existing table 0-3, new routes 0-3, index -7..7, fault position -1..3 x 4 exception types',
-                           history='<= %d operations from 9 kinds x 2 target applications' % L))
+                           history='<= %d operations from 10 kinds x 2 target applications' % L))
     res.outside += ['histories longer than the bound', 'thread interleavings (C12)']
     return res
